@@ -116,7 +116,10 @@ def gen_exp(rnd, cfg, depth, calls, allcalls=(), itemful=False, innames=False):
     if k == 'alt':
         return ('alt', tuple(sub() for _ in range(rnd.randint(2, 3))))
     if k == 'cutseq':
-        return ('seq', (sub(), ('cut',), sub()))
+        body = ('seq', (sub(), ('cut',), sub()))
+        r = rnd.random()
+        # cuts inside optionals and closures are the scopes with their own code paths
+        return ('opt', body) if r < 0.25 else ('star', body) if r < 0.4 else body
     if k in ('grp', 'opt', 'skipgrp', 'skipto', 'and', 'not'):
         return (k, sub())
     if k in ('star', 'plus'):
